@@ -44,7 +44,8 @@ extern int mpt_path_last(MPT_STRUCT(path) *path)
 		--data; ++len; --pos;
 	}
 	path->off += pos;
-	path->len  = (path->first = len) + 1;
+	path->len  = len + 1;
+	path->first = (len > UINT8_MAX) ? 0 : len;
 	
 	return len;
 }
